@@ -6,70 +6,549 @@ Laws of the sorted-map specification (`Model/Spec.lean`) under the comparator la
 namespace Redb.Spec
 open Redb.Key
 
+
+section cmpfacts
+variable {t : KT}
+
+theorem cmp_gt_iff (hc : CmpLaws t) {a b : Bytes} (ha : valid t a = true) (hb : valid t b = true) :
+    cmp t a b = .gt ↔ cmp t b a = .lt := (hc.antisymm b a hb ha).symm
+
+theorem cmp_le_of_not_lt (hc : CmpLaws t) {a b : Bytes} (ha : valid t a = true) (hb : valid t b = true)
+    (h : cmp t a b ≠ .lt) : cmp t b a ≠ .gt := by
+  intro h'
+  exact h ((hc.antisymm a b ha hb).2 h')
+
+theorem cmp_lt_of_lt_of_le (hc : CmpLaws t) {a b c : Bytes} (ha : valid t a = true)
+    (hb : valid t b = true) (hcv : valid t c = true)
+    (h1 : cmp t a b = .lt) (h2 : cmp t b c ≠ .gt) : cmp t a c = .lt := by
+  false_or_by_contra
+  rename_i h
+  have h3 : cmp t c a ≠ .gt := cmp_le_of_not_lt hc ha hcv h
+  have h4 : cmp t b a ≠ .gt := hc.trans b c a hb hcv ha h2 h3
+  exact h4 ((hc.antisymm a b ha hb).1 h1)
+
+theorem cmp_congr_left (hc : CmpLaws t) {a b c : Bytes} (ha : valid t a = true)
+    (hb : valid t b = true) (hcv : valid t c = true)
+    (h : cmp t a b = .eq) : cmp t a c = cmp t b c := by
+  have hab : cmp t a b ≠ .gt := by simp [h]
+  have hba : cmp t b a ≠ .gt := by simp [(hc.eq_symm a b ha hb).1 h]
+  cases hbc : cmp t b c with
+  | lt => exact hc.trans_lt a b c ha hb hcv hab hbc
+  | gt =>
+    have : cmp t c b = .lt := (cmp_gt_iff hc hb hcv).1 hbc
+    have : cmp t c a = .lt := cmp_lt_of_lt_of_le hc hcv hb ha this hba
+    exact (cmp_gt_iff hc ha hcv).2 this
+  | eq =>
+    have h1 : cmp t a c ≠ .gt := hc.trans a b c ha hb hcv hab (by simp [hbc])
+    have hcb : cmp t c b ≠ .gt := by simp [(hc.eq_symm b c hb hcv).1 hbc]
+    have h2 : cmp t c a ≠ .gt := hc.trans c b a hcv hb ha hcb hba
+    have h3 : cmp t a c ≠ .lt := fun h' => h2 ((hc.antisymm a c ha hcv).1 h')
+    cases hac : cmp t a c <;> simp_all
+
+theorem cmp_congr_right (hc : CmpLaws t) {a b c : Bytes} (ha : valid t a = true)
+    (hb : valid t b = true) (hcv : valid t c = true)
+    (h : cmp t b c = .eq) : cmp t a b = cmp t a c := by
+  have hbc : cmp t b c ≠ .gt := by simp [h]
+  have hcb : cmp t c b ≠ .gt := by simp [(hc.eq_symm b c hb hcv).1 h]
+  cases hab : cmp t a b with
+  | lt => exact (cmp_lt_of_lt_of_le hc ha hb hcv hab hbc).symm
+  | gt =>
+    have : cmp t b a = .lt := (cmp_gt_iff hc ha hb).1 hab
+    have : cmp t c a = .lt := hc.trans_lt c b a hcv hb ha hcb this
+    exact ((cmp_gt_iff hc ha hcv).2 this).symm
+  | eq =>
+    rw [cmp_congr_left hc ha hb hcv hab, h]
+
+end cmpfacts
 /-- all keys of the map are valid encodings -/
 def KeysValid (t : KT) (m : Map) : Prop := ∀ e, e ∈ m → valid t e.1 = true
+
+/-- pairwise form of `Sorted` -/
+def PSorted (t : KT) (m : Map) : Prop := m.Pairwise (fun a b => cmp t a.1 b.1 = .lt)
+
+theorem keysValid_cons {t : KT} {a : Entry} {m : Map} :
+    KeysValid t (a :: m) ↔ valid t a.1 = true ∧ KeysValid t m := by
+  simp [KeysValid]
+
+theorem keysValid_nil {t : KT} : KeysValid t [] := by simp [KeysValid]
+
+theorem sorted_iff_psorted {t : KT} (hc : CmpLaws t) (m : Map) (hv : KeysValid t m) :
+    Sorted t m ↔ PSorted t m := by
+  induction m with
+  | nil => simp [Sorted, PSorted]
+  | cons a m ih =>
+    cases m with
+    | nil => simp [Sorted, PSorted]
+    | cons b rest =>
+      have hv' := (keysValid_cons.1 hv)
+      have ih := ih hv'.2
+      have hb := (keysValid_cons.1 hv'.2)
+      simp only [Sorted, PSorted] at ih ⊢
+      rw [List.pairwise_cons, ← ih]
+      constructor
+      · rintro ⟨h1, h2⟩
+        refine ⟨?_, h2⟩
+        intro x hx
+        rcases List.mem_cons.1 hx with rfl | hx
+        · exact h1
+        · have := (List.pairwise_cons.1 (ih.1 h2)).1 x hx
+          exact hc.trans_lt _ _ _ hv'.1 hb.1 (hb.2 x hx) (by simp [h1]) this
+      · rintro ⟨h1, h2⟩
+        exact ⟨h1 b (by simp), h2⟩
+section aux
+variable {t : KT}
+
+theorem psorted_cons {a : Entry} {m : Map} :
+    PSorted t (a :: m) ↔ (∀ x ∈ m, cmp t a.1 x.1 = .lt) ∧ PSorted t m := by
+  simp [PSorted]
+
+theorem insert_keys (m : Map) (k v : Bytes) :
+    ∀ e ∈ (insert t m k v).1, e.1 = k ∨ ∃ e' ∈ m, e'.1 = e.1 := by
+  induction m with
+  | nil => simp [insert]
+  | cons a m ih =>
+    obtain ⟨k', v'⟩ := a
+    cases h : cmp t k k' with
+    | lt =>
+      simp only [insert, h]
+      intro e he
+      rcases List.mem_cons.1 he with rfl | he
+      · exact Or.inl rfl
+      · exact Or.inr ⟨e, he, rfl⟩
+    | eq =>
+      simp only [insert, h]
+      intro e he
+      rcases List.mem_cons.1 he with rfl | he
+      · exact Or.inr ⟨(k', v'), by simp, rfl⟩
+      · exact Or.inr ⟨e, by simp [he], rfl⟩
+    | gt =>
+      simp only [insert, h]
+      intro e he
+      rcases List.mem_cons.1 he with rfl | he
+      · exact Or.inr ⟨(k', v'), by simp, rfl⟩
+      · rcases ih e he with h1 | ⟨e', he', h2⟩
+        · exact Or.inl h1
+        · exact Or.inr ⟨e', by simp [he'], h2⟩
+
+theorem insert_psorted (hc : CmpLaws t) (m : Map) (k v : Bytes)
+    (hs : PSorted t m) (hv : KeysValid t m) (hk : valid t k = true) :
+    PSorted t (insert t m k v).1 ∧ KeysValid t (insert t m k v).1 := by
+  induction m with
+  | nil => simp [insert, PSorted, KeysValid, hk]
+  | cons a m ih =>
+    obtain ⟨k', v'⟩ := a
+    obtain ⟨hk', hvm⟩ := keysValid_cons.1 hv
+    obtain ⟨hlt, hsm⟩ := psorted_cons.1 hs
+    simp only at hk' hlt
+    cases h : cmp t k k' with
+    | lt =>
+      simp only [insert, h]
+      refine ⟨psorted_cons.2 ⟨?_, hs⟩, keysValid_cons.2 ⟨hk, hv⟩⟩
+      intro x hx
+      rcases List.mem_cons.1 hx with rfl | hx
+      · exact h
+      · exact hc.trans_lt _ _ _ hk hk' (hvm x hx) (by simp [h]) (hlt x hx)
+    | eq =>
+      simp only [insert, h]
+      exact ⟨psorted_cons.2 ⟨hlt, hsm⟩, keysValid_cons.2 ⟨hk', hvm⟩⟩
+    | gt =>
+      simp only [insert, h]
+      obtain ⟨ih1, ih2⟩ := ih hsm hvm
+      refine ⟨psorted_cons.2 ⟨?_, ih1⟩, keysValid_cons.2 ⟨hk', ih2⟩⟩
+      intro x hx
+      rcases insert_keys m k v x hx with h1 | ⟨e', he', h2⟩
+      · rw [h1]; exact (cmp_gt_iff hc hk hk').1 h
+      · rw [← h2]; exact hlt e' he'
+
+theorem remove_sublist (m : Map) (k : Bytes) : (remove t m k).1.Sublist m := by
+  induction m with
+  | nil => simp [remove]
+  | cons a m ih =>
+    obtain ⟨k', v'⟩ := a
+    cases h : cmp t k k' <;> simp [remove, h, ih]
+
+theorem keysValid_sublist {m m' : Map} (h : m'.Sublist m) (hv : KeysValid t m) : KeysValid t m' :=
+  fun e he => hv e (h.subset he)
+
+theorem psorted_sublist {m m' : Map} (h : m'.Sublist m) (hs : PSorted t m) : PSorted t m' :=
+  List.Pairwise.sublist h hs
+
+theorem get_none_of_all_lt (m : Map) (k : Bytes) (h : ∀ e ∈ m, cmp t k e.1 = .lt) :
+    get t m k = none := by
+  cases m with
+  | nil => simp [get]
+  | cons a m =>
+    obtain ⟨k', v'⟩ := a
+    have := h (k', v') (by simp)
+    simp only at this
+    simp [get, this]
+
+theorem get_append_left (l1 l2 : Map) (k : Bytes) (h : ∀ e ∈ l2, cmp t k e.1 = .lt) :
+    get t (l1 ++ l2) k = get t l1 k := by
+  induction l1 with
+  | nil => simpa [get] using get_none_of_all_lt l2 k h
+  | cons a m ih =>
+    obtain ⟨k', v'⟩ := a
+    cases h' : cmp t k k' <;> simp [get, h', ih]
+
+theorem get_append_right (l1 l2 : Map) (k : Bytes) (h : ∀ e ∈ l1, cmp t k e.1 = .gt) :
+    get t (l1 ++ l2) k = get t l2 k := by
+  induction l1 with
+  | nil => simp
+  | cons a m ih =>
+    obtain ⟨k', v'⟩ := a
+    have := h (k', v') (by simp)
+    simp only at this
+    simp only [List.cons_append, get, this]
+    exact ih (fun e he => h e (by simp [he]))
+
+theorem get_insert_p (hc : CmpLaws t) (m : Map) (k v k' : Bytes)
+    (hs : PSorted t m) (hv : KeysValid t m) (hk : valid t k = true) (hk' : valid t k' = true) :
+    get t (insert t m k v).1 k' = if cmp t k' k = .eq then some v else get t m k' := by
+  induction m with
+  | nil => cases h : cmp t k' k <;> simp [insert, get, h]
+  | cons a m ih =>
+    obtain ⟨k0, v0⟩ := a
+    obtain ⟨hk0, hvm⟩ := keysValid_cons.1 hv
+    obtain ⟨hlt, hsm⟩ := psorted_cons.1 hs
+    simp only at hk0 hlt
+    cases h : cmp t k k0 with
+    | lt =>
+      simp only [insert, h]
+      cases h' : cmp t k' k with
+      | lt =>
+        have : cmp t k' k0 = .lt := hc.trans_lt _ _ _ hk' hk hk0 (by simp [h']) h
+        simp [get, h', this]
+      | eq => simp [get, h']
+      | gt => simp [get, h']
+    | eq =>
+      simp only [insert, h]
+      have : cmp t k' k = cmp t k' k0 := cmp_congr_right hc hk' hk hk0 h
+      rw [this]
+      cases h' : cmp t k' k0 <;> simp [get, h']
+    | gt =>
+      simp only [insert, h]
+      have hlt0 : cmp t k0 k = .lt := (cmp_gt_iff hc hk hk0).1 h
+      cases h' : cmp t k' k0 with
+      | lt =>
+        have : cmp t k' k = .lt := cmp_lt_of_lt_of_le hc hk' hk0 hk h' (by simp [hlt0])
+        simp [get, h', this]
+      | eq =>
+        have : cmp t k' k = .lt := by rw [cmp_congr_left hc hk' hk0 hk h']; exact hlt0
+        simp [get, h', this]
+      | gt =>
+        simp only [get, h']
+        exact ih hsm hvm
+
+theorem get_remove_p (hc : CmpLaws t) (m : Map) (k k' : Bytes)
+    (hs : PSorted t m) (hv : KeysValid t m) (hk : valid t k = true) (hk' : valid t k' = true) :
+    get t (remove t m k).1 k' = if cmp t k' k = .eq then none else get t m k' := by
+  induction m with
+  | nil => simp [remove, get]
+  | cons a m ih =>
+    obtain ⟨k0, v0⟩ := a
+    obtain ⟨hk0, hvm⟩ := keysValid_cons.1 hv
+    obtain ⟨hlt, hsm⟩ := psorted_cons.1 hs
+    simp only at hk0 hlt
+    cases h : cmp t k k0 with
+    | lt =>
+      simp only [remove, h]
+      split
+      · rename_i h'
+        have : cmp t k' k0 = .lt := by rw [cmp_congr_left hc hk' hk hk0 h']; exact h
+        simp [get, this]
+      · rfl
+    | eq =>
+      simp only [remove, h]
+      have e1 : cmp t k' k = cmp t k' k0 := cmp_congr_right hc hk' hk hk0 h
+      rw [e1]
+      cases h' : cmp t k' k0 with
+      | lt =>
+        simp only [get, h']
+        apply get_none_of_all_lt
+        intro e he
+        exact cmp_lt_of_lt_of_le hc hk' hk0 (hvm e he) h' (by simp [hlt e he])
+      | eq =>
+        simp only [if_true]
+        apply get_none_of_all_lt
+        intro e he
+        rw [cmp_congr_left hc hk' hk0 (hvm e he) h']; exact hlt e he
+      | gt => simp [get, h']
+    | gt =>
+      simp only [remove, h]
+      have hlt0 : cmp t k0 k = .lt := (cmp_gt_iff hc hk hk0).1 h
+      cases h' : cmp t k' k0 with
+      | lt =>
+        have : cmp t k' k = .lt := cmp_lt_of_lt_of_le hc hk' hk0 hk h' (by simp [hlt0])
+        simp [get, h', this]
+      | eq =>
+        have : cmp t k' k = .lt := by rw [cmp_congr_left hc hk' hk0 hk h']; exact hlt0
+        simp [get, h', this]
+      | gt =>
+        simp only [get, h']
+        exact ih hsm hvm
+
+theorem get_mem_p (hc : CmpLaws t) (m : Map) (hs : PSorted t m) (hv : KeysValid t m)
+    (e : Entry) (he : e ∈ m) : get t m e.1 = some e.2 := by
+  induction m with
+  | nil => simp at he
+  | cons a m ih =>
+    obtain ⟨k0, v0⟩ := a
+    obtain ⟨hk0, hvm⟩ := keysValid_cons.1 hv
+    obtain ⟨hlt, hsm⟩ := psorted_cons.1 hs
+    simp only at hk0 hlt
+    rcases List.mem_cons.1 he with rfl | he
+    · simp [get, hc.refl _ hk0]
+    · have : cmp t e.1 k0 = .gt := (cmp_gt_iff hc (hvm e he) hk0).2 (hlt e he)
+      simp only [get, this]
+      exact ih hsm hvm he
+
+
+theorem psorted_unique (hc : CmpLaws t) (m : Map) (hs : PSorted t m) (hv : KeysValid t m)
+    (e g : Entry) (he : e ∈ m) (hg : g ∈ m) (h : cmp t e.1 g.1 = .eq) : e = g := by
+  induction m with
+  | nil => simp at he
+  | cons a m ih =>
+    obtain ⟨ha, hvm⟩ := keysValid_cons.1 hv
+    obtain ⟨hlt, hsm⟩ := psorted_cons.1 hs
+    rcases List.mem_cons.1 he with rfl | he' <;> rcases List.mem_cons.1 hg with rfl | hg'
+    · rfl
+    · rw [hlt g hg'] at h; cases h
+    · have := (cmp_gt_iff hc (hvm e he') ha).2 (hlt e he')
+      rw [this] at h; cases h
+    · exact ih hsm hvm he' hg'
+
+theorem mem_remove_p (hc : CmpLaws t) (m : Map) (k : Bytes)
+    (hs : PSorted t m) (hv : KeysValid t m) (hk : valid t k = true) (e : Entry) :
+    e ∈ (remove t m k).1 ↔ e ∈ m ∧ cmp t e.1 k ≠ .eq := by
+  induction m with
+  | nil => simp [remove]
+  | cons a m ih =>
+    obtain ⟨k0, v0⟩ := a
+    obtain ⟨hk0, hvm⟩ := keysValid_cons.1 hv
+    obtain ⟨hlt, hsm⟩ := psorted_cons.1 hs
+    simp only at hk0 hlt
+    cases h : cmp t k k0 with
+    | lt =>
+      simp only [remove, h]
+      constructor
+      · intro he
+        refine ⟨he, ?_⟩
+        have hve := hv e he
+        have : cmp t k e.1 = .lt := by
+          rcases List.mem_cons.1 he with rfl | he
+          · exact h
+          · exact hc.trans_lt _ _ _ hk hk0 hve (by simp [h]) (hlt e he)
+        rw [(cmp_gt_iff hc hve hk).2 this]; simp
+      · exact fun h => h.1
+    | eq =>
+      simp only [remove, h]
+      constructor
+      · intro he
+        refine ⟨by simp [he], ?_⟩
+        have hve := hvm e he
+        have : cmp t k e.1 = .lt := by rw [cmp_congr_left hc hk hk0 hve h]; exact hlt e he
+        rw [(cmp_gt_iff hc hve hk).2 this]; simp
+      · rintro ⟨he, hne⟩
+        rcases List.mem_cons.1 he with rfl | he
+        · exact absurd ((hc.eq_symm _ _ hk hk0).1 h) hne
+        · exact he
+    | gt =>
+      simp only [remove, h, List.mem_cons, ih hsm hvm]
+      constructor
+      · rintro (rfl | ⟨he, hne⟩)
+        · refine ⟨Or.inl rfl, ?_⟩
+          rw [(cmp_gt_iff hc hk hk0).1 h]; simp
+        · exact ⟨Or.inr he, hne⟩
+      · rintro ⟨rfl | he, hne⟩
+        · exact Or.inl rfl
+        · exact Or.inr ⟨he, hne⟩
+
+theorem foldl_remove_p (hc : CmpLaws t) (got : List Entry) (m : Map)
+    (hs : PSorted t m) (hv : KeysValid t m) (hg : ∀ g ∈ got, valid t g.1 = true) :
+    PSorted t (got.foldl (fun acc e => (remove t acc e.1).1) m) ∧
+    KeysValid t (got.foldl (fun acc e => (remove t acc e.1).1) m) ∧
+    ∀ e, e ∈ got.foldl (fun acc e => (remove t acc e.1).1) m ↔
+      e ∈ m ∧ ∀ g ∈ got, cmp t e.1 g.1 ≠ .eq := by
+  induction got generalizing m with
+  | nil => simp [hs, hv]
+  | cons g got ih =>
+    simp only [List.foldl_cons]
+    have hsub := remove_sublist (t := t) m g.1
+    have hs' := psorted_sublist hsub hs
+    have hv' := keysValid_sublist hsub hv
+    obtain ⟨i1, i2, i3⟩ := ih (remove t m g.1).1 hs' hv' (fun x hx => hg x (by simp [hx]))
+    refine ⟨i1, i2, ?_⟩
+    intro e
+    rw [i3 e, mem_remove_p hc m g.1 hs hv (hg g (by simp)) e]
+    simp only [List.mem_cons, forall_eq_or_imp]
+    constructor
+    · rintro ⟨⟨h1, h2⟩, h3⟩; exact ⟨h1, h2, h3⟩
+    · rintro ⟨h1, h2, h3⟩; exact ⟨⟨h1, h2⟩, h3⟩
+
+theorem consume_go_mem (fuel : Nat) (front : Bool) (l acc : List Entry) :
+    ∀ e ∈ consume.go fuel front l acc, e ∈ l ∨ e ∈ acc := by
+  induction fuel generalizing front l acc with
+  | zero => intro e he; simp [consume.go] at he; exact Or.inr he
+  | succ fuel ih =>
+    intro e he
+    cases l with
+    | nil => simp [consume.go] at he; exact Or.inr he
+    | cons x rest =>
+      cases front with
+      | true =>
+        simp only [consume.go, if_true] at he
+        rcases ih _ _ _ e he with h | h
+        · exact Or.inl (by simp [h])
+        · rcases List.mem_cons.1 h with rfl | h
+          · exact Or.inl (by simp)
+          · exact Or.inr h
+      | false =>
+        simp only [consume.go, Bool.false_eq_true, if_false] at he
+        split at he
+        · simp at he; exact Or.inr he
+        · rename_i y hy
+          rcases ih _ _ _ e he with h | h
+          · exact Or.inl (List.dropLast_subset _ h)
+          · rcases List.mem_cons.1 h with rfl | h
+            · exact Or.inl (List.mem_of_getLast? hy)
+            · exact Or.inr h
+
+theorem consume_mem (l : List Entry) (mode : Mode) (limit : Nat) :
+    ∀ e ∈ consume l mode limit, e ∈ l := by
+  intro e he
+  cases mode with
+  | fwd => exact List.mem_of_mem_take he
+  | rev => exact List.mem_reverse.1 (List.mem_of_mem_take he)
+  | alt =>
+    simp only [consume] at he
+    rcases consume_go_mem _ _ _ _ e he with h | h
+    · exact h
+    · simp at h
+
+
+theorem sorted_tail {a : Entry} {m : Map} (hs : Sorted t (a :: m)) : Sorted t m := by
+  cases m with
+  | nil => simp [Sorted]
+  | cons b rest => exact hs.2
+
+theorem sorted_dropLast : ∀ m : Map, Sorted t m → Sorted t m.dropLast
+  | [], _ => by simp [Sorted]
+  | [_], _ => by simp [Sorted]
+  | [_, _], _ => by simp [Sorted]
+  | a :: b :: c :: rest, h => by
+    have ih := sorted_dropLast (b :: c :: rest) h.2
+    simp only [List.dropLast_cons_cons] at ih ⊢
+    exact ⟨h.1, ih⟩
+
+end aux
 
 theorem insert_sorted (t : KT) (hc : CmpLaws t) (m : Map) (k v : Bytes)
     (hs : Sorted t m) (hv : KeysValid t m) (hk : valid t k = true) :
     Sorted t (insert t m k v).1 ∧ KeysValid t (insert t m k v).1 := by
-  sorry
+  obtain ⟨h1, h2⟩ := insert_psorted hc m k v ((sorted_iff_psorted hc m hv).1 hs) hv hk
+  exact ⟨(sorted_iff_psorted hc _ h2).2 h1, h2⟩
 
 theorem insert_returns_old (t : KT) (m : Map) (k v : Bytes) :
     (insert t m k v).2 = get t m k := by
-  sorry
+  induction m with
+  | nil => simp [insert, get]
+  | cons a m ih =>
+    obtain ⟨k', v'⟩ := a
+    simp only [insert, get]
+    cases cmp t k k' <;> simp [ih]
 
 theorem get_insert (t : KT) (hc : CmpLaws t) (m : Map) (k v k' : Bytes)
     (hs : Sorted t m) (hv : KeysValid t m) (hk : valid t k = true) (hk' : valid t k' = true) :
-    get t (insert t m k v).1 k' = if cmp t k' k = .eq then some v else get t m k' := by
-  sorry
+    get t (insert t m k v).1 k' = if cmp t k' k = .eq then some v else get t m k' :=
+  get_insert_p hc m k v k' ((sorted_iff_psorted hc m hv).1 hs) hv hk hk'
 
 theorem remove_sorted (t : KT) (hc : CmpLaws t) (m : Map) (k : Bytes)
     (hs : Sorted t m) (hv : KeysValid t m) (hk : valid t k = true) :
     Sorted t (remove t m k).1 ∧ KeysValid t (remove t m k).1 := by
-  sorry
+  have _hk := hk  -- not needed: removal never inspects validity of the removed key
+  have hsub := remove_sublist (t := t) m k
+  have h2 := keysValid_sublist hsub hv
+  exact ⟨(sorted_iff_psorted hc _ h2).2 (psorted_sublist hsub ((sorted_iff_psorted hc m hv).1 hs)), h2⟩
 
 theorem remove_returns_old (t : KT) (m : Map) (k : Bytes) :
     (remove t m k).2 = get t m k := by
-  sorry
+  induction m with
+  | nil => simp [remove, get]
+  | cons a m ih =>
+    obtain ⟨k', v'⟩ := a
+    simp only [remove, get]
+    cases cmp t k k' <;> simp [ih]
 
 theorem get_remove (t : KT) (hc : CmpLaws t) (m : Map) (k k' : Bytes)
     (hs : Sorted t m) (hv : KeysValid t m) (hk : valid t k = true) (hk' : valid t k' = true) :
-    get t (remove t m k).1 k' = if cmp t k' k = .eq then none else get t m k' := by
-  sorry
+    get t (remove t m k).1 k' = if cmp t k' k = .eq then none else get t m k' :=
+  get_remove_p hc m k k' ((sorted_iff_psorted hc m hv).1 hs) hv hk hk'
 
 /-- `len` after an insert: grows by one exactly when the key was absent -/
 theorem insert_length (t : KT) (m : Map) (k v : Bytes) :
     (insert t m k v).1.length = m.length + (if (get t m k).isSome then 0 else 1) := by
-  sorry
+  induction m with
+  | nil => simp [insert, get]
+  | cons a m ih =>
+    obtain ⟨k', v'⟩ := a
+    cases h : cmp t k k' <;> simp [insert, get, h, ih] <;> omega
 
 theorem remove_length (t : KT) (m : Map) (k : Bytes) :
     (remove t m k).1.length + (if (get t m k).isSome then 1 else 0) = m.length := by
-  sorry
+  induction m with
+  | nil => simp [remove, get]
+  | cons a m ih =>
+    obtain ⟨k', v'⟩ := a
+    cases h : cmp t k k' <;> simp [remove, get, h, ← ih] <;> omega
 
 /-- a sorted map has no two entries with equal keys, and `get` finds every entry -/
 theorem get_mem (t : KT) (hc : CmpLaws t) (m : Map) (hs : Sorted t m) (hv : KeysValid t m)
-    (e : Entry) (he : e ∈ m) : get t m e.1 = some e.2 := by
-  sorry
+    (e : Entry) (he : e ∈ m) : get t m e.1 = some e.2 :=
+  get_mem_p hc m ((sorted_iff_psorted hc m hv).1 hs) hv e he
 
 /-- first / pop_first is the minimum, last / pop_last the maximum -/
 theorem head_is_min (t : KT) (hc : CmpLaws t) (m : Map) (hs : Sorted t m) (hv : KeysValid t m)
     (e x : Entry) (hh : m.head? = some e) (hx : x ∈ m) : cmp t e.1 x.1 ≠ .gt := by
-  sorry
+  cases m with
+  | nil => simp at hh
+  | cons a rest =>
+    simp only [List.head?_cons, Option.some.injEq] at hh
+    subst hh
+    obtain ⟨hlt, _⟩ := psorted_cons.1 ((sorted_iff_psorted hc _ hv).1 hs)
+    rcases List.mem_cons.1 hx with rfl | hx
+    · rw [hc.refl _ (hv _ (by simp))]; simp
+    · rw [hlt x hx]; simp
 
 theorem last_is_max (t : KT) (hc : CmpLaws t) (m : Map) (hs : Sorted t m) (hv : KeysValid t m)
     (e x : Entry) (hh : m.getLast? = some e) (hx : x ∈ m) : cmp t x.1 e.1 ≠ .gt := by
-  sorry
+  obtain ⟨ys, hm⟩ := List.getLast?_eq_some_iff.1 hh
+  have hp := (sorted_iff_psorted hc m hv).1 hs
+  rw [hm] at hx hp
+  have hp' := (List.pairwise_append.1 hp).2.2
+  rcases List.mem_append.1 hx with hx | hx
+  · rw [hp' x hx e (by simp)]; simp
+  · simp only [List.mem_singleton] at hx
+    subst hx
+    rw [hc.refl _ (hv _ (List.mem_of_getLast? hh))]; simp
 
 theorem popFirst_sorted (t : KT) (m : Map) (hs : Sorted t m) : Sorted t (popFirst m).1 := by
-  sorry
+  cases m with
+  | nil => simp [popFirst, Sorted]
+  | cons a rest => exact sorted_tail hs
 
 theorem popLast_sorted (t : KT) (m : Map) (hs : Sorted t m) : Sorted t (popLast m).1 := by
-  sorry
+  unfold popLast
+  split
+  · exact hs
+  · exact sorted_dropLast m hs
 
 /-- any sublist obtained by filtering stays sorted (range, retain, retain_in) -/
 theorem filter_sorted (t : KT) (hc : CmpLaws t) (m : Map) (hs : Sorted t m) (hv : KeysValid t m)
     (p : Entry → Bool) : Sorted t (m.filter p) ∧ KeysValid t (m.filter p) := by
-  sorry
+  have hsub : (m.filter p).Sublist m := List.filter_sublist
+  have h2 := keysValid_sublist hsub hv
+  exact ⟨(sorted_iff_psorted hc _ h2).2 (psorted_sublist hsub ((sorted_iff_psorted hc m hv).1 hs)), h2⟩
 
 /-- `extract_if` removes exactly the yielded entries and yields only entries that were present,
 in range, and satisfied the predicate -/
@@ -78,6 +557,25 @@ theorem extractIf_spec (t : KT) (hc : CmpLaws t) (m : Map) (lo hi : Bound) (p : 
     Sorted t (extractIf t m lo hi p mode limit).1 ∧
     (∀ e, e ∈ (extractIf t m lo hi p mode limit).2 → e ∈ m ∧ inRange t lo hi e.1 = true ∧ p e.1 e.2 = true) ∧
     (∀ e, e ∈ m → (e ∈ (extractIf t m lo hi p mode limit).1 ↔ e ∉ (extractIf t m lo hi p mode limit).2)) := by
-  sorry
+  simp only [extractIf]
+  generalize hgot : consume (m.filter (fun e => inRange t lo hi e.1 && p e.1 e.2)) mode limit = got
+  have hsel : ∀ e ∈ got, e ∈ m ∧ inRange t lo hi e.1 = true ∧ p e.1 e.2 = true := by
+    intro e he
+    rw [← hgot] at he
+    have := consume_mem _ _ _ e he
+    simpa [List.mem_filter, and_assoc] using this
+  have hp := (sorted_iff_psorted hc m hv).1 hs
+  obtain ⟨f1, f2, f3⟩ := foldl_remove_p hc got m hp hv (fun g hg => hv g (hsel g hg).1)
+  refine ⟨(sorted_iff_psorted hc _ f2).2 f1, hsel, ?_⟩
+  intro e he
+  rw [f3 e]
+  constructor
+  · rintro ⟨_, h⟩ hin
+    exact h e hin (hc.refl _ (hv e he))
+  · intro hnot
+    refine ⟨he, ?_⟩
+    intro g hg heq
+    have := psorted_unique hc m hp hv e g he (hsel g hg).1 heq
+    exact hnot (this ▸ hg)
 
 end Redb.Spec
